@@ -20,6 +20,24 @@ from ..units import UnitError, fmt, mul, unit_of_name
 from .c12 import full_call_name
 
 
+def collections_count_attr_stores(ctx, modname, clsname):
+    """{attribute: number of `self.attr = ...` stores in all methods of the class} (an attribute stored once, in
+    __init__, is a constant of the object)."""
+    out = {}
+    m = ctx.repo.modules.get(modname)
+    if m is None:
+        return out
+    for st in m.tree.body:
+        if isinstance(st, ast.ClassDef) and st.name == clsname:
+            for n in ast.walk(st):
+                tgts = n.targets if isinstance(n, ast.Assign) else ([n.target] if isinstance(n, (ast.AugAssign, ast.AnnAssign)) else [])
+                for t in tgts:
+                    for x in ast.walk(t):
+                        if isinstance(x, ast.Attribute) and isinstance(x.value, ast.Name) and x.value.id == "self" and isinstance(x.ctx, ast.Store):
+                            out[x.attr] = out.get(x.attr, 0) + 1
+    return out
+
+
 def run(ctx, chk, tier="quick"):
     chk.explanation = (
         "Order-cell evaluation of SplineTransmissivity.call_scalar over the three orderings of the "
@@ -54,10 +72,33 @@ def run(ctx, chk, tier="quick"):
             return "kmax"
         return None
 
+    # attributes that __init__ binds once to the lowest / highest knot (computed once instead of per call)
+    init_attrs = {}
+    try:
+        init_f = ctx.func("transmissivity.SplineTransmissivity.__init__")
+        stores = {}
+        for n in ast.walk(init_f.node):
+            if isinstance(n, ast.Assign) and len(n.targets) == 1 and isinstance(n.targets[0], ast.Attribute) and isinstance(n.targets[0].value, ast.Name) \
+                    and n.targets[0].value.id == "self":
+                stores.setdefault(n.targets[0].attr, []).append(n.value)
+        cls_stores = collections_count_attr_stores(ctx, "transmissivity", "SplineTransmissivity")
+        for a, vals in stores.items():
+            if len(vals) == 1 and cls_stores.get(a, 0) == 1:
+                v = vals[0]
+                while isinstance(v, ast.Call) and isinstance(v.func, ast.Name) and v.func.id in ("float", "int") and len(v.args) == 1:
+                    v = v.args[0]
+                k = knot_min(v)
+                if k:
+                    init_attrs[a] = k
+    except Exception:
+        init_attrs = {}
+
     def sym_of(node):
         s = knot_min(node)
         if s:
             return s
+        if isinstance(node, ast.Attribute) and isinstance(node.value, ast.Name) and node.value.id == "self" and node.attr in init_attrs:
+            return init_attrs[node.attr]
         if isinstance(node, ast.Name) and node.id == w:
             return "w"
         if isinstance(node, ast.Attribute) and dotted_name(node) == "self.minimum_transmissivity_m2_d":
@@ -146,6 +187,8 @@ def run(ctx, chk, tier="quick"):
         s = knot_min(node)
         if s:
             return s
+        if isinstance(node, ast.Attribute) and isinstance(node.value, ast.Name) and node.value.id == "self" and node.attr in init_attrs:
+            return init_attrs[node.attr]
         if isinstance(node, ast.Name) and node.id == cp:
             return "w"
         return None
